@@ -303,7 +303,7 @@ def _m17():
 
     def _load(cls, path):
         m = orig(cls, path)
-        return {k: v for k, v in m.items() if k != 'c'}
+        return {k: v for k, v in m.items() if k != 'b'}
     msol.UuidMap._load = classmethod(_load)
 
 
